@@ -379,6 +379,35 @@ class DTShim(metaclass=_DTMeta):
         return datetime.now(*a, **k)
 
 
+class SymAwareTD(timedelta):
+    """a concrete timedelta created inside the library (timeframe_to_timedelta, ...): behaves like timedelta, except that a
+    symbolic number as the other operand of * is handled symbolically instead of being read as a C float"""
+
+    def __mul__(self, o):
+        if isinstance(o, SymNum):
+            from . import core
+            return core._times_timedelta(o, self)
+        return timedelta.__mul__(self, o)
+
+    __rmul__ = __mul__
+
+    def __truediv__(self, o):
+        if isinstance(o, SymNum):
+            raise Unsupported("timedelta / symbolic number")
+        return timedelta.__truediv__(self, o)
+
+    def __floordiv__(self, o):
+        if isinstance(o, SymNum):
+            raise Unsupported("timedelta // symbolic number")
+        return timedelta.__floordiv__(self, o)
+
+    def __deepcopy__(self, memo):
+        return self
+
+    def __reduce__(self):
+        return (timedelta, (self.days, self.seconds, self.microseconds))
+
+
 class _TDMeta(type):
     def __instancecheck__(cls, x):
         return isinstance(x, (timedelta, SymTD))
@@ -386,7 +415,7 @@ class _TDMeta(type):
     def __call__(cls, *a, **k):
         vals = list(a) + list(k.values())
         if not any(isinstance(v, SymNum) for v in vals):
-            return timedelta(*a, **k)
+            return SymAwareTD(*a, **k)
         names = ["days", "seconds", "microseconds", "milliseconds", "minutes", "hours", "weeks"]
         kw = dict(zip(names, a))
         kw.update(k)
